@@ -28,7 +28,7 @@ TCfg == /\ Consume("cfg") /\ si' = Ev.scen
         /\ delivered' = <<>> /\ ncached' = 0 /\ done' = FALSE
         /\ apc' = "start" /\ ai' = 1 /\ lpc' = "start" /\ lcur' = Nil /\ lrest' = <<>>
         /\ kpc' = [d \in Devs |-> IF d \in Scenarios[Ev.scen].regs THEN "start" ELSE "none"]
-        /\ knext' = [d \in Devs |-> Nil]
+        /\ knext' = [d \in Devs |-> <<>>]
         /\ cpc' = (IF Scenarios[Ev.scen].cancel THEN "start" ELSE "none") /\ h' = <<>>
 TStep == /\ Consume("step") /\ Ev.ok /\ Ev.p
          /\ ThreadStep(Ev.t)
